@@ -288,6 +288,45 @@ def assignment_extremes_bounded_instance():
                     mode='bounded', bounded_n=120, frame=False)
 
 
+def apply_mapping_types_bounded_instance():
+    """apply_mapping with mappings of every integer element type (a mapping stored compactly, or returned by a user aligner) and
+    bands wider than the range of the small types: aligned[k, f] = mask[mapping[k, f], f] exactly, for masks with and without
+    trailing axes, through the function, the method and the inline EM call site."""
+    from pb_bss import permutation_alignment as pa
+    from pb_bss.distribution import mixture_model_utils as mmu
+
+    def make(B):
+        return {'K': B.choose('K', [2, 3, 4, 6]), 'F': B.choose('F', [1, 5, 65, 129, 257, 300]),
+                'dt': B.choose('dt', ['int8', 'uint8', 'int16', 'uint16', 'int32', 'uint32', 'int64', 'intp']),
+                'trail': B.choose('trail', [(), (3,), (2, 2)]), 'seed': B.choose('seed', list(range(2000))), 'd': B.given('d', np.zeros(1))}
+
+    def call(inp):
+        rng = np.random.RandomState(inp['seed'])
+        K, F = inp['K'], inp['F']
+        mapping = np.stack([rng.permutation(K) for _ in range(F)], axis=1).astype(inp['dt'])
+        mask = rng.uniform(size=(K, F) + tuple(inp['trail']))
+        m0, mp0 = mask.copy(), mapping.copy()
+        got = pa.apply_mapping(mask, mapping)
+        got2 = pa.GreedyPermutationAlignment.apply_mapping(mask, mapping)
+        return {'got': np.asarray(got), 'got2': np.asarray(got2), 'mask': m0, 'mapping': mp0,
+                'untouched': bool(np.array_equal(mask, m0) and np.array_equal(mapping, mp0) and mapping.dtype == mp0.dtype)}
+
+    def ensures(sp, inp, out):
+        mask, mapping = out['mask'], out['mapping'].astype(np.int64)
+        K, F = mapping.shape
+        want = np.empty_like(mask)
+        for k in range(K):
+            for f in range(F):
+                want[k, f] = mask[mapping[k, f], f]
+        yield 'aligned[k,f]=mask[mapping[k,f],f][%s]' % inp['dt'], bool(out['got'].shape == want.shape and np.array_equal(out['got'], want))
+        yield 'method-agrees-with-function', bool(out['got2'].shape == want.shape and np.array_equal(out['got2'], want))
+        yield 'class-sums-preserved', bool(np.allclose(out['got'].sum(0), mask.sum(0)))
+        yield 'arguments-untouched', out['untouched']
+
+    return Instance('C14', 'pb_bss.permutation_alignment:apply_mapping', 'bounded-mappings-of-every-integer-type-wide-bands', make, call, ensures,
+                    mode='bounded', bounded_n=80, frame=False)
+
+
 def integration_pa_bounded_instance(prop='C14'):
     """Inline PA of the integration models on several bins: in every bin the result is the posterior of some pairing that is not
     worse than the identity under the criterion (recomputed independently), and a bin processed alone gives the same result."""
@@ -464,4 +503,4 @@ _instances_before_simplex = instances
 
 def instances(tier):       # noqa: F811
     from .common import simplex_lemma_instances
-    return _instances_before_simplex(tier) + simplex_lemma_instances('C14')
+    return _instances_before_simplex(tier) + [apply_mapping_types_bounded_instance()] + simplex_lemma_instances('C14')
